@@ -93,6 +93,9 @@ def within_float32_exp_range(indep: dict, names) -> bool:
             if v is None:
                 continue
             a = rm.f64(v)
-            if a.size and np.nanmax(np.abs(a)) > 80:
+            # log-positions / shifts enter squared metrics (g^2, 1/(gamma (1-gamma))^2): beyond ~10 the float32 Householder basis
+            # and the products `metric * space_shift` keep no digit for the other features (seen: deltas = -30 -> model value 1.0 for 3e-14)
+            lim = 10 if nm in ("log_g", "deltas") else 80
+            if a.size and np.nanmax(np.abs(a)) > lim:
                 return False
     return True
